@@ -14,20 +14,22 @@ def mc_jobs(ctx):
     inv, prop = L.INV_C09 + ["CountIsLiveDeclarations"], L.PROP_C09
     jobs = [
         # closures in containers, one context
-        ("containers", {"DeclSet": "{6, 7}", "Name": '{"f"}', "Vias": '{"exec", "run"}', "MaxSteps": 5 if q else 6,
+        ("containers", {"DeclSet": "{6, 7}", "Name": '{"f"}', "Vias": '{"exec", "run"}', "MaxSteps": 4 if q else 6,
                         "Acts": acts("define", "del", "push", "pop", "clear", "fire", "set", "unload")}, inv, prop, None),
         # three names, rebinding
-        ("names3", {"DeclSet": "{5, 7}", "Name": '{"f", "g", "h"}', "MaxSteps": 5 if q else 6,
+        ("names3", {"DeclSet": "{5, 7}", "Name": '{"f", "g", "h"}', "MaxSteps": 4 if q else 6,
                     "Acts": acts("define", "del", "rebind", "fire", "set")}, inv, prop, None),
         # two contexts: file load while HA starts, reload, file delete, unload
-        ("files", {"DeclSet": "{7, 8}", "Ctx": '{"c1", "c2"}', "StartedSet": "{TRUE, FALSE}", "MaxDefs": 2 if not q else 1,
-                   "MaxSteps": 4 if q else 5, "Name": '{"f"}' if q else '{"f", "g"}',
-                   "MaxGen": 3 if q else 4,
+        ("files", {"DeclSet": "{7, 8}", "Ctx": '{"c1", "c2"}', "StartedSet": "{TRUE, FALSE}", "MaxDefs": 1,
+                   "MaxSteps": 3 if q else 4, "Name": '{"f"}' if q else '{"f", "g"}', "MaxGen": 3 if q else 4,
                    "Acts": acts("boot", "reload", "close", "unload", "define", "del", "fire", "set", "call")}, inv, prop, None),
         # deferred stops (windows), both subsystems
-        ("windows", {"DeclSet": "{7, 8}", "SubSet": '{"dm", "legacy"}', "Eager": "FALSE", "MaxGen": 3, "MaxSteps": 5 if q else 6,
+        ("windows", {"DeclSet": "{7, 8}", "SubSet": '{"dm", "legacy"}', "Eager": "FALSE", "MaxGen": 3, "MaxSteps": 4 if q else 6,
                      "Acts": acts("define", "del", "push", "clear", "fire", "set", "call", "unload")}, inv, prop, None),
     ]
+    # file contents with two definitions (also of the same name), one context
+    jobs.append(("contents2", {"DeclSet": "{4, 7}", "StartedSet": "{TRUE, FALSE}", "MaxDefs": 2, "MaxSteps": 2 if q else 3,
+                               "Acts": acts("boot", "reload", "del", "close", "fire", "call")}, inv, prop, None))
     if not q:
         jobs.append(("session", {"DeclSet": "{6, 8, 13}", "Ctx": '{"c1", "c3"}', "MaxSteps": 6,
                                  "Acts": acts("define", "del", "push", "clear", "close", "reload", "unload", "fire")}, inv, prop, None))
@@ -51,7 +53,7 @@ def mc_jobs(ctx):
 
 
 def main(ctx):
-    sizes = {"sim": ctx.pick(12, 300), "depth": ctx.pick(9, 14), "rnd": ctx.pick(14, 200), "steps": ctx.pick(18, 40),
+    sizes = {"sim": ctx.pick(6, 120), "depth": ctx.pick(8, 14), "rnd": ctx.pick(10, 150), "steps": ctx.pick(18, 40),
              "simsplit": ctx.pick(3, 6)}
     L.main_common(ctx, "C09", mc_jobs(ctx),
                   {"MaxGen": 8, "DeclSet": "{1, 4, 6, 7, 8, 9, 11, 12, 13}" if ctx.quick else "AllDecls",
